@@ -386,6 +386,14 @@ class Prop(object):
             clone.add_subkey(a2, usage={KeyFlags.EncryptCommunications} if scn == 'subbind-enc' else {KeyFlags.Sign}, created=K.dt(S.SIG_T))
             cp = clone.pubkey
             yield 'bind-other-subkey-under-right-primary', 'different', list(cp.subkeys.values())[0], (clone, cp)
+            # the right primary holding BOTH the subkey the signature is about and a sibling of the same algorithm: the signature presented for the sibling
+            # (for a primary-key binding the sibling never signed anything; its issuer, the other subkey, is right there in the same key)
+            both, _ = K.pgpy_cert(o['host_name'], uid=S.SIGNER_UID)
+            for r_ in (sraw, araw):
+                both.add_subkey(K.pgpy_secret(r_), usage={KeyFlags.EncryptCommunications} if scn == 'subbind-enc' else {KeyFlags.Sign}, created=K.dt(S.SIG_T))
+            bp = both.pubkey
+            sib = [k for k in bp.subkeys.values() if bytes.fromhex(str(k.fingerprint).replace(' ', '')) == rkeys.fingerprint(araw)]
+            yield 'bind-sibling-subkey-in-the-same-key', 'different', sib[0], (both, bp)
             # a subkey with another creation time
             traw = dict(sraw, created=sraw['created'] + 1)
             clone2, _ = K.pgpy_cert(o['host_name'], uid=S.SIGNER_UID)
@@ -730,6 +738,37 @@ class Prop(object):
                     # the foreign signature is not by this key: PGPy skips it (nothing was accepted)
                     cls = 'free'
                 self._judge(r, cls, verdict, dict(tags, grp='key-' + nm), dict(case), 'certificate with %s' % nm)
+        # --- inside a key: the primary-key binding (cross-signature) one signing subkey made, carried by the binding of a sibling that never made one
+        sibs = [n for n in ('ed25519c', 'ed25519b', 'ecdsa_p256b') if n != signer][:2]
+        kx, _ = K.pgpy_cert(signer, uid='Erin Cross <e@example.org>', subkeys=[(sibs[0], {KeyFlags.Sign}), (sibs[1], {KeyFlags.Sign})])
+        px = wire.read_packets(bytes(kx.pubkey))
+        if [p['tag'] for p in px] == [6, 13, 2, 14, 2, 14, 2]:
+            goodx, _ = pgpy.PGPKey.from_blob(b''.join(p['raw'] for p in px))
+            v = 'truthy' if goodx.verify(goodx) else 'falsy'
+            r.states += 1
+            r.transitions += 1
+            r.outcomes['base:' + v] += 1
+            if v != 'truthy':
+                r.viol('base-rejected', {'scn': 'key-cross'}, case, 'exported certificate with two signing subkeys does not self-verify after import')
+            else:
+                b1, b2 = rsig.parse_body(px[4]['body'], strict=False), rsig.parse_body(px[6]['body'], strict=False)
+                emb1 = [sp for sp in b1['unhashed_sp'] if sp['type'] == 32]
+                rest2 = b''.join(wire.subpacket(sp['type'], bytes(sp['body'])) for sp in b2['unhashed_sp'] if sp['type'] != 32)
+                if len(emb1) == 1:
+                    moved = dict(px[6])
+                    moved['raw'] = rebuild(b2, unhashed=rest2 + wire.subpacket(32, bytes(emb1[0]['body'])))
+                    try:
+                        k2, _ = pgpy.PGPKey.from_blob(b''.join(p['raw'] for p in px[:6] + [moved]))
+                        verdict = 'truthy' if k2.verify(k2) else 'falsy'
+                        sub2 = list(k2.subkeys.values())[1]
+                        if verdict == 'falsy' and k2.verify(sub2):
+                            verdict = 'truthy'
+                    except pgpy.errors.PGPError:
+                        verdict = 'verify-error:PGPError'
+                    except Exception as e:
+                        verdict = 'verify-error:' + type(e).__name__
+                    self._judge(r, 'different', verdict, dict(tags, grp='key-cross-signature-of-sibling'), dict(case),
+                                'certificate whose second signing subkey carries the cross-signature made by the first')
         r.dim('signer', signer)
         r.samples.append({'carried': signer})
         return r
